@@ -186,6 +186,15 @@ def green_swapped(api, grid, flip_domains, a, b, points_in, points_out, orders, 
                               "multipliers by %s" % ("P1 segment" if segment_mode else "continuous P1", ksum)})
 
 
+def guarded(fails, label, fn, *a):
+    """an exception while evaluating a legitimate potential is a failing input, not a harness crash"""
+    try:
+        fn(*a)
+    except Exception as ex:
+        fails.append({"signature": "C02:exception:" + type(ex).__name__, "data": {"case": label},
+                      "what": "potential evaluation raised %r in %s" % (ex, label)})
+
+
 def run_search(cfg):
     import bempp_cl.api as api
     strength = cfg.get("strength", "quick")
@@ -211,15 +220,17 @@ def run_search(cfg):
                 a = [1.0, -0.5, 0.25]
             b = float(rng.integers(-4, 5)) / 4.0
             results["diameter/" + gname] = diam
-            green_case(api, grid, a, b, pin, pout, orders, False, results, fails, "python-body", gname)
-            green_case(api, grid, a, b, pin, pout, orders, True, results, fails, "python-body", gname)
+            guarded(fails, gname + "/whole", green_case, api, grid, a, b, pin, pout, orders, False, results, fails,
+                    "python-body", gname)
+            guarded(fails, gname + "/segments", green_case, api, grid, a, b, pin, pout, orders, True, results, fails,
+                    "python-body", gname)
         # inward-stored faces corrected by swapped_normals; continuous P1 (localised space is a different object)
         sw_orders = (8, 12)
         g1 = flipped_grid(api, "cube12", 2, {1})
-        green_swapped(api, g1, {1}, [1.0, -0.5, 0.25], 0.5, [[0.5, 0.5, 0.5]], [[2.0, 0.5, 0.25]], sw_orders, False,
-                      results, fails, "cube12-flipped1")
-        green_swapped(api, g1, {1}, [1.0, -0.5, 0.25], 0.5, [[0.5, 0.5, 0.5]], [[2.0, 0.5, 0.25]], sw_orders, True,
-                      results, fails, "cube12-flipped1")
+        guarded(fails, "cube12-flipped1/whole", green_swapped, api, g1, {1}, [1.0, -0.5, 0.25], 0.5, [[0.5, 0.5, 0.5]],
+                [[2.0, 0.5, 0.25]], sw_orders, False, results, fails, "cube12-flipped1")
+        guarded(fails, "cube12-flipped1/segments", green_swapped, api, g1, {1}, [1.0, -0.5, 0.25], 0.5, [[0.5, 0.5, 0.5]],
+                [[2.0, 0.5, 0.25]], sw_orders, True, results, fails, "cube12-flipped1")
     if strength == "thorough":
         grid = refined("cube12", 2)
         green_case(api, grid, [1.0, -0.5, 0.25], 0.5, [[0.5, 0.5, 0.5]], [[2.0, 0.5, 0.25]], orders, False, results,
